@@ -219,9 +219,9 @@ def rule_cap(ctx, rep):
         pat.require(size_bytes, "%s: ring allocation size not constant" % fl)
         SIZE = size_bytes // 8
         thr = None
-        for t, s, a in pat.branch_edges_on(f, lambda a: a[0] == "uge" and a[2][0] == "c" and a[1][0] == "bin" and a[1][1] == "sub"):
+        for t, s, a in pat.branch_edges_on(f, lambda a: a[0] in ("uge", "ugt") and a[2][0] == "c" and a[1][0] == "bin" and a[1][1] == "sub"):
             if f.bdom(s, flush[0].blk.id) or s == flush[0].blk.id:
-                thr = a[2][1]
+                thr = a[2][1] + (1 if a[0] == "ugt" else 0)
         if thr is None:
             raise Broken("%s: flush threshold test (head - tail >= C) not recognised" % fl)
         maxslots = 0
@@ -243,7 +243,7 @@ def rule_cap(ctx, rep):
 
 def _not_below_threshold(f, thr):
     blocked = set()
-    for t, s, a in pat.branch_edges_on(f, lambda a: a[0] == "ult" and a[2] == ("c", thr) and a[1][0] == "bin" and a[1][1] == "sub"):
+    for t, s, a in pat.branch_edges_on(f, lambda a: ((a[0] == "ult" and a[2] == ("c", thr)) or (a[0] == "ule" and a[2] == ("c", thr - 1))) and a[1][0] == "bin" and a[1][1] == "sub"):
         blocked.add((t.blk.id, s))
     return pat.block_edge_filter(blocked)
 
